@@ -481,6 +481,7 @@ def histories(draw, tier):
         st.tuples(st.just("register-registering"), st.sampled_from(["push-async", "push-sync", "callback-sync"])),
         st.tuples(st.just("register-popping"), st.sampled_from(["push-async", "push-sync", "callback-sync"])),
         st.tuples(st.just("register-entering"), st.sampled_from(["push-async", "push-sync"])),
+        st.tuples(st.just("push-stack"), st.integers(0, 3)),
         st.tuples(st.just("aclose")),
         st.tuples(st.just("pop_all"), st.booleans()),
         st.tuples(st.just("leave"), st.booleans()),
@@ -557,6 +558,8 @@ def check_history(case):
                     "callback-async": acb, "callback-sync": scb}[kind]
 
         running_on = [None]
+        pushed = {}   # stack index -> indexes of the stacks that were pushed onto it (their __aexit__ is one of its exits)
+        has_push = any(o[0] == "push-stack" for o in case["ops"])
         reg_seq = {}  # exit id -> how many exits had been registered (anywhere) before it
 
         def mark(e):
@@ -568,7 +571,8 @@ def check_history(case):
         async def unwind(idx, with_exc):
             unwinds[0] += 1
             running_on[0] = idx
-            expected = sorted(e for e, o in owner.items() if o == idx)
+            family = [idx] + list(pushed.get(idx, ()))
+            expected = sorted(e for e, o in owner.items() if o in family)
             before = unwind_start[0] = len(ran)
             del moved_away[:]
             late_before = len(registered_late)
@@ -589,23 +593,27 @@ def check_history(case):
                 running_on[0] = None
             ran_now = sorted(e for e, _ in ran[before:])
             # exits registered on THIS stack while it was unwinding run in the same unwind
-            expected = sorted([e for e in expected if e not in moved_away] +
-                              [e for e in registered_late[late_before:] if owner.get(e) == idx])
+            # (a stack that was pushed onto this one is unwound by it - with everything registered on it by then)
+            expected = sorted({e for e in expected if e not in moved_away} |
+                              {e for e in registered_late[late_before:] if owner.get(e) in family})
             if ran_now != expected:
                 problems.append(("unwind-ran-wrong-exits", f"stack {idx}: ran {ran_now} expected {expected}"))
             # last in, first out - also for exits that came over from another stack by pop_all(): those that were
             # registered before this unwind began run in the reverse order of their registration (ids count up)
             early = [reg_seq[e] for e, _ in ran[before:] if e in reg_seq and reg_seq[e] < seq_before]
-            if early != sorted(early, reverse=True):
+            if early != sorted(early, reverse=True) and not has_push:  # (a pushed stack is ONE exit of its host)
                 problems.append(("exits-not-in-reverse-registration-order",
                                  f"stack {idx}: ran {[e for e, _ in ran[before:]]} registered as {early}"))
             for e in expected:
                 owner[e] = None
+            pushed.pop(idx, None)
 
         for op in case["ops"]:
             if problems:
                 break
             name = op[0]
+            if name in ("register-registering", "register-popping", "register-entering") and has_push:
+                continue  # (kept apart from stacks pushed onto stacks: one kind of indirection per history)
             if name == "register":
                 _, kind, behaviour = op
                 if behaviour == "enter-fails" and kind not in ("acm", "scm", "dual"):
@@ -658,6 +666,14 @@ def check_history(case):
                     stack.callback(registering)
                 mark(eid)
                 owner[eid] = cur
+            elif name == "push-stack":
+                # another ExitStack is an exit like any other object with __aexit__: the host calls it when its turn
+                # comes, and THEN it unwinds whatever is registered on it by then
+                j = op[1] % len(stacks)
+                taken = {x for xs in pushed.values() for x in xs}
+                if j != cur and j not in taken and cur not in taken and not pushed.get(j):
+                    stacks[cur].push(stacks[j])
+                    pushed.setdefault(cur, []).append(j)
             elif name == "register-entering":
                 # a composite resource: while it is being entered, the manager registers a helper callback on the
                 # very stack it is entered on.  The helper was registered first, so it is unwound AFTER the manager
@@ -727,6 +743,8 @@ def check_history(case):
             elif name == "pop_all":
                 new = stacks[cur].pop_all()
                 stacks.append(new)
+                if cur in pushed:
+                    pushed[len(stacks) - 1] = pushed.pop(cur)
                 for e, o in owner.items():
                     if o == cur:
                         owner[e] = len(stacks) - 1
